@@ -117,6 +117,8 @@ class HeaderObject(BaseObject):
                 obj.parse(asf, data)
             except struct.error:
                 raise ASFHeaderError("truncated")
+            except UnicodeDecodeError as e:
+                raise ASFHeaderError("invalid text: %s" % e)
             header.objects.append(obj)
 
         return header
